@@ -24,6 +24,7 @@ import (
 	"github.com/jech/galene/packetmap"
 	"github.com/jech/galene/rtptime"
 	"github.com/jech/galene/unbounded"
+	"github.com/jech/galene/verifhook"
 )
 
 type bitrate struct {
@@ -716,6 +717,7 @@ func (track *rtpUpTrack) sendNACK(first uint16, bitmap uint16) error {
 		return ErrUnsupportedFeedback
 	}
 
+	verifhook.At("rtpconn.sendNACK", track.cache, first, bitmap)
 	err := sendNACKs(track.conn.pc, track.track.SSRC(),
 		[]rtcp.NackPair{{first, rtcp.PacketBitmap(bitmap)}},
 	)
@@ -735,6 +737,7 @@ func (track *rtpUpTrack) sendNACKs(seqnos []uint16) error {
 		return ErrUnsupportedFeedback
 	}
 
+	verifhook.At("rtpconn.sendNACKs", track.cache, seqnos)
 	var nacks []rtcp.NackPair
 
 	for len(seqnos) > 0 {
